@@ -15,8 +15,22 @@ class CompositeBaseToken(BaseToken):
     def get_token_sets(cls) -> list:
         return cls._TOKEN_SETS
 
+    # What get() has found so far in the formula that is being parsed: the token sets are tried one after another and most
+    # of them start with the same sub-tokens, without the memory every nesting level multiplies the work (a formula with
+    # seven nested calls took minutes). The rest of a formula is identified by its first token and its length.
+    _FOUND = {}
+
     @classmethod
     def get(cls, expression: list, in_cell: Cell):
+        key = (cls, id(in_cell), id(expression[0]) if expression else None, len(expression))
+        found = CompositeBaseToken._FOUND.get(key)
+        if found is None:
+            found = CompositeBaseToken._FOUND[key] = cls._get(expression, in_cell)
+
+        return found
+
+    @classmethod
+    def _get(cls, expression: list, in_cell: Cell):
         control_construction_flag = False
         for tokens in cls.get_token_sets():
             new_expression_part = []
